@@ -7,3 +7,49 @@ claim('C04', 'proof',
       'Trusted: pyvc engine (cross-checked per path against CPython), builtin axioms, A-INDUCTION for nesting, floats as reals. '
       'Dict/Object/Union/Callable specs and Schema-level extend/compat are not under contract in this revision.',
       'contract-based deductive verification (pyvc VC generation from real source + z3/cvc5)', 'DESIGN.md 5/C04')
+claim('C02', 'proof',
+      'pg.List refines Python list per operation on the payload view: `_parse_slice` / `__getitem__` (int, and slices with start/stop symbolic and '
+      'step in {None,+-1,+-2,+-3}) return exactly what Python\'s slice semantics prescribe, `append/insert/__setitem__/__delitem__/pop` leave the '
+      'payload equal to the Python operation\'s result and raise IndexError exactly when Python does; obligations are discharged for lists of any '
+      'length. Histories follow by induction on the per-operation refinement. The bounded tier runs the full list/dict API differentially.',
+      'Trusted: pyvc engine, axioms of the C-level list methods and slice.indices (cross-checked against CPython on every path), leaf values '
+      'without value spec are their own formal value. Dict operations, sort/reverse/extend/remove, nested auto-conversion and JSON read-back are '
+      'covered only by the bounded differential driver.',
+      'contract-based deductive verification (pyvc) + bounded differential stand-in', 'DESIGN.md 5/C02')
+claim('C08', 'proof',
+      'Dominance contracts over the whole mutating surface of pg.List / pg.Dict / pg.Object (every accessor, mutator, in-place operator and the '
+      'rebind chain down to `_set_item_of_current_tree`): on every symbolic path of the real bodies, any payload write, write-primitive call or '
+      'unreviewed call is preceded by a consultation of `treats_as_sealed` (resp. `writtable_via_accessors`) that answered "not protected"; the two '
+      'predicates are proved against the documented scope-over-flag precedence; SURFACE obligations show no mutating C method of list/dict is inherited.',
+      'Trusted: the reviewed list of non-mutating callees (PURE in contracts/c08_protect.py), A-DEEPSEAL (nodes reached from a protected receiver '
+      'are protected: seal() is deep, the scope override is global) and the engine. "Tree stays exactly as it was" for nested trees is additionally '
+      'checked by the bounded driver (pg.to_json before/after).',
+      'contract-based deductive verification (pyvc dominance/trace obligations)', 'DESIGN.md 5/C08')
+claim('C10', 'proof',
+      'KeyPath arithmetic against key sequences for paths of any depth: `__init__`, `__add__`, `__sub__` (defined iff prefix; result is the suffix), '
+      '`parent`, `key`, `is_relative_to`, `__eq__`, and the lemmas (p+q)-p == q and q+(p-q) == p, all by symbolic execution of the real bodies with '
+      'quantified sequence reasoning. parse/format, query/traverse, flatten/canonicalize and KeyPathSet are covered by the bounded tier only.',
+      'Trusted: engine, list axioms; keys are modelled as integers with decidable equality (the code only compares them). String parsing is not proved.',
+      'contract-based deductive verification (pyvc) + bounded stand-in for parse/format, traversal, KeyPathSet', 'DESIGN.md 5/C10')
+claim('C15', 'proof',
+      '`DNAGenerator.recover` carries the loop invariant "after i records the counters equal those of the live run after the same i events" '
+      '(INV-init / INV-step discharged for histories of any length, hence every crash point); `propose`/`feedback` count exactly once; '
+      'Sweeping `_propose`/`_replay` and seeded Random `_propose`/`_replay` are step-equivalent (same successor call, exactly one rng draw).',
+      'Trusted: engine; subclasses\' `_replay`/`_feedback` do not touch the base counters (A-SUBTYPE). Deduping and the Evolution family are covered by '
+      'the bounded tier only (all crash points of short runs).',
+      'contract-based deductive verification (pyvc loop invariants, relational step contracts) + bounded stand-in', 'DESIGN.md 5/C15')
+claim('C17', 'proof',
+      'For `thread_local_value_scope` (arbitrary key and values), every flags.py manager with its getter, and `coding.permission`: the real generator '
+      'body is executed to its yield, the block is abstracted by the induction hypothesis (well-nested body), and on both the normal and the '
+      'exceptional exit the whole thread-local store equals the store before entering; inside the block the getter returns the argument '
+      '(outermost wins for permission); all writes go to the current thread\'s store (threading.local axiom).',
+      'Trusted: engine, the threading.local confinement axiom (pyvc/tls.py), private sentinels are never stored by callers. Other managers '
+      '(contextual overrides, view options, detour, dynamic evaluation, timing) are covered by the bounded tier (nested programs, two threads).',
+      'contract-based deductive verification (pyvc, context-manager contracts over a thread-local store model)', 'DESIGN.md 5/C17')
+claim('C19', 'proof',
+      'Finite-domain proof of the gate: `_CodeValidator.generic_visit` over every class of the live `ast` module x all 2^8 permission sets (symbolic '
+      'bit-vector) returns only if every permission the statement requires is granted, then visits all children; no visit_<X> override exists; '
+      '`parse` validates with the given permission and turns SyntaxError into CodeError; in `evaluate` the parse with the *effective* permission '
+      'dominates every exec/eval/compile, with and without an enclosing scope.',
+      'Trusted: engine, `ast.NodeVisitor.generic_visit` visits every child (stdlib). "A granted program behaves like exec" is bounded-tier only.',
+      'contract-based deductive verification (pyvc; exhaustive over ast classes, symbolic permission bits)', 'DESIGN.md 5/C19')
